@@ -314,6 +314,16 @@ class HierDriver(explore.Driver):
             for feat in FEATS + ["frame"]:
                 probe("scalar", lambda f=feat: gen.arrays_equal(
                     ds[f][:], data[f][ri]))
+            # what the child's feature objects say about themselves
+            probe("describe", lambda: all(
+                len(ds[f]) == len(ri) and tuple(ds[f].shape) == np.shape(
+                    np.asarray(data[f])[ri]) and gen.arrays_equal(
+                    np.asarray(ds[f]), np.asarray(data[f])[ri])
+                for f in (FEATS[1], "image", "mask")) and len(
+                ds["contour"]) == len(ri) and len(
+                ds["trace"]["fl1_raw"]) == len(ri) and tuple(
+                ds["trace"]["fl1_raw"].shape) == np.shape(
+                data["trace"]["fl1_raw"][ri]))
             exp_time = ref_time[ri]
             probe("computed", lambda: np.allclose(
                 ds["time"][:], exp_time, rtol=1e-12, atol=0))
